@@ -209,6 +209,8 @@ def _stream_stmt(stm, stream):
         return "K_VAL(); /* stream handed to a callee that writes values */"
     if st.startswith("return"):
         return "return;"
+    if st in ("break", "continue"):
+        return st + ";"
     return ";"
 
 
@@ -217,6 +219,7 @@ def _stream_skeleton(stream):
     `stream` kept in order: manipulators that change the number format, setprecision, and insertions of non-literal values. Everything else is dropped."""
     def run(m):
         text, out, i, n = m.group(0), [], 0, len(m.group(0))
+        labels = [0]
         def paren(j):
             depth = 0
             while j < n:
@@ -238,17 +241,23 @@ def _stream_skeleton(stream):
                 out.append(c); i += 1; continue
             if c in "{}":
                 out.append(c); i += 1; continue
+            ml = re.match(r"(?:case\s+(?:[^:;{}]|::)+?\s*:(?!:)|default\s*:)", text[i:])
+            if ml:
+                labels[0] += 1
+                out.append("default:" if ml.group(0).startswith("default") else "case %d:" % labels[0])
+                i += ml.end()
+                continue
             mk = re.match(r"(if|for|while|else|do|switch|try|catch|goto)\b", text[i:])
             if mk:
                 kw = mk.group(1)
-                if kw in ("do", "switch", "try", "catch", "goto"):
+                if kw in ("do", "try", "catch", "goto"):
                     raise extract.ExtractionError("skeleton rule: '%s' not supported" % kw)
                 i += len(kw)
                 if kw == "else":
                     out.append("else "); continue
                 j = text.index("(", i)
                 k = paren(j)
-                out.append({"if": "if (nondet_bool())", "for": "for (; nondet_bool();)", "while": "while (nondet_bool())"}[kw])
+                out.append({"if": "if (nondet_bool())", "for": "for (; nondet_bool();)", "while": "while (nondet_bool())", "switch": "switch (nondet_int())"}[kw])
                 i = k + 1
                 continue
             # simple statement up to ';' outside parentheses / literals
